@@ -206,8 +206,8 @@ func init() {
 	add(&sub{Name: "L0", Posted: post(p, 1), Path: p})
 	p = path(pre("p0", rootA))
 	add(&sub{Name: "P0", Pre: true, Posted: post(p, 1), Path: p})
-	add(&sub{Name: "RS", Posted: [][]byte{rootB.DER}, Path: []*pki.Cert{rootB}})         // the leaf is itself a trusted root: empty issuance chain
-	add(&sub{Name: "PS", Pre: true, Posted: [][]byte{rootP.DER}, Path: nil})              // a precertificate without issuer: 400
+	add(&sub{Name: "RS", Posted: [][]byte{rootB.DER}, Path: []*pki.Cert{rootB}}) // the leaf is itself a trusted root: empty issuance chain
+	add(&sub{Name: "PS", Pre: true, Posted: [][]byte{rootP.DER}, Path: nil})     // a precertificate without issuer: 400
 	p = path(pre("pp", pi))
 	add(&sub{Name: "PP", Pre: true, Posted: post(p, 3), Path: p}) // via pre-issuer
 	p = path(l1)
